@@ -513,6 +513,8 @@ GENERIC_CONCRETE = [T.U32, T.STRING, T.UINT128, T.PT, T.SHAPE, T.BOOL, T.COIN, T
 
 def _wrap_param(rng, base):
     c = rng.random()
+    if c < 0.08 and base.kind == "generic":
+        return T.qualified(base)
     if c < 0.5:
         return base
     if c < 0.65:
